@@ -207,6 +207,13 @@ class Spec(core.PropSpec):
             chooser = Chooser(seed=plan["sched_seed"])
             trace = []
 
+        def ref_flipped(i):
+            """the same fresh single access, but with the opposite context propagation (values only)"""
+            p = SimProcess("ref2", plan["amb_ref"] + 29 * i + 5)
+            with p.on_cpu():
+                v = ModeWrapper(S.build(ref_stack), mode=plan["mode"], return_ctx=not plan["return_ctx"])[i]
+            return v[0] if not plan["return_ctx"] else v
+
         try:
             ref(0)
         except AssertionError:
@@ -274,6 +281,19 @@ class Spec(core.PropSpec):
                     if d and not any(v[0] == "C08:history-dependent" for v in vio):
                         vio.append(("C08:history-dependent", f"index {i} delivered in epoch {ei} (K={K}, delivery #{seen[i]} of this index) "
                                                              f"differs from a fresh single access: {d}", None))
+        # whether a context is propagated is not part of (data, config, seed, i): the values must not depend on it
+        if not vio:
+            for i in sorted(seen)[:3]:
+                try:
+                    a = ref(i)
+                    a = a[0] if plan["return_ctx"] else a
+                    d = deep_diff(a, ref_flipped(i))
+                except Exception as e:
+                    break
+                if d:
+                    vio.append(("C08:depends-on-context-propagation", f"index {i}: value with return_ctx={plan['return_ctx']} differs from the value "
+                                                                      f"with return_ctx={not plan['return_ctx']} (fresh single accesses): {d}", None))
+                    break
         if stack["root"]["clobber"] and K >= 0:
             out.count("fault:ambient_rng_clobber_in_worker", len(stack["root"]["clobber"]))
             faults += 1
